@@ -35,6 +35,11 @@ def crash_sig(o):
         msg = ''.join('#' if ch.isdigit() else ch for ch in o[1])[:80]
         return 'panic:%s@%s' % (msg, o[2])
     if o[0] == 'abort':
+        err = o[2] if len(o) > 2 else ''
+        for marker in ('AddressSanitizer', 'ThreadSanitizer', 'Undefined Behavior', 'data race', 'stack overflow'):
+            if marker in err:
+                line = next((l.strip() for l in err.splitlines() if marker in l), marker)
+                return 'abort:%s:%s' % (marker, ''.join('#' if c.isdigit() else c for c in line)[:90])
         return 'abort:%s' % (o[1],)
     return o[0]
 
